@@ -1,18 +1,24 @@
 /-
-C06 — the chunk deserializer decodes every spec-conformant foreign chunk stream.   STATUS: proved
-here for all inputs: (1) the deserializer reads every chunk stream id 2..65599 in each of its legal
-1-, 2- and 3-byte forms, with every format, exactly as the specification reader does; (2) whatever it
-decodes does not depend on the fragmentation (Thm P).  The full statement — for every byte string the
-specification reader (Rml/Spec/Chunk.lean, restricted to one message in flight) accepts, the
-deserializer model returns exactly the same messages and no error (Thm B, `C06_decodes_legal`) — is NOT
-yet a theorem; it is covered by the `foreign` family: a sender written from §5.3.1 that exercises every
-freedom the specification gives, checked against the real deserializer, the model, the Lean
-specification reader and the Rust reference decoder on every run.
+C06 — the chunk deserializer decodes every spec-conformant foreign chunk stream.   STATUS: proved.
+
+(1) `C06_decodes_legal` (Thm B): for EVERY byte string that the specification reader
+    (Rml/Spec/Chunk.lean, written from RTMP 1.0 §5.3.1) accepts as the output of a sequential,
+    strictly conformant sender — any chunk stream ids 2..65599 in any of their 1/2/3-byte forms, any
+    legal choice of header format per message, extended timestamps, repeated full headers or type 3
+    continuations (whatever their extended field holds), zero-length messages, in-band chunk-size
+    changes — the deserializer model returns exactly the messages the specification reader returns,
+    reports no error and leaves no byte buffered.
+(2) `C06_decodes_legal_any_fragmentation`: the same under EVERY partition of the bytes into calls.
+(3) the deserializer reads every basic header form exactly as the specification does.
+Streams outside the class (messages interleaved across chunk streams) are known finding K1 (C16).
+The tie between the model and deserializer.rs, and between the generator's foreign streams and the
+class of (1) (`spec.seq`), is the `foreign` family.
 -/
 import Rml.Model.Deserializer
 import Rml.Spec.Chunk
 import Rml.Props.C15
 import Rml.Lemmas.Bytes
+import Rml.Lemmas.DesSpec
 namespace Rml.C06
 open Rml Rml.Bytes Rml.Chunk
 
@@ -85,8 +91,55 @@ theorem C06_any_fragmentation (c1 : Bytes) (r1 : List Bytes) (c2 : Bytes) (r2 : 
     (C15.feedAll {} (c1 :: r1)).err = (C15.feedAll {} (c2 :: r2)).err :=
   C15.C15_des {} c1 r1 c2 r2 h
 
--- a foreign stream checked in the kernel (a test): csid 65599 in 3-byte form, format 0 with extended
--- timestamp, a format-3 continuation repeating the extended field, then a format-2 message
+/-- **C06 (Thm B).**  Every stream of a sequential, strictly conformant sender is decoded to exactly
+    the messages the specification assigns to it, without error, with nothing left buffered. -/
+theorem C06_decodes_legal (bs : Bytes) (ms : List Msg) (h : Spec.Chunk.decodeSeq bs = some ms) :
+    (Des.feed {} bs).msgs = ms ∧ (Des.feed {} bs).err = none ∧ (Des.feed {} bs).buf = [] :=
+  DesSpec.feed_decodeSeq bs ms h
+
+/-- … and under every fragmentation of the byte string into input calls -/
+theorem C06_decodes_legal_any_fragmentation (c1 : Bytes) (r1 : List Bytes) (ms : List Msg)
+    (h : Spec.Chunk.decodeSeq (c1 :: r1).flatten = some ms) :
+    (C15.feedAll {} (c1 :: r1)).msgs = ms ∧ (C15.feedAll {} (c1 :: r1)).err = none := by
+  obtain ⟨h1, h2, _⟩ := DesSpec.feed_decodeSeq _ ms h
+  obtain ⟨p1, p2, _⟩ := C15.C15_des_partition r1 {} c1
+  exact ⟨p1.trans h1, p2.trans h2⟩
+
+/-- the strict sequential class is a sub-class of what the general specification reader accepts,
+    with the same messages -/
+theorem decodeSeqFuel_decodeFuel : ∀ (f : Nat) (s : Spec.Chunk.State) (cur : Option Nat) (bs : Bytes)
+    (acc ms : List Msg), Spec.Chunk.decodeSeqFuel f s cur bs acc = some ms →
+    Spec.Chunk.decodeFuel f s bs acc = some ms := by
+  intro f
+  induction f with
+  | zero => intro s cur bs acc ms h; unfold Spec.Chunk.decodeSeqFuel at h; unfold Spec.Chunk.decodeFuel; exact h
+  | succ f ih =>
+    intro s cur bs acc ms h
+    unfold Spec.Chunk.decodeSeqFuel at h
+    unfold Spec.Chunk.decodeFuel
+    by_cases he : bs.isEmpty = true
+    · simp only [he, if_true] at h ⊢; exact h
+    · simp only [he, Bool.false_eq_true, if_false] at h ⊢
+      by_cases hso : Spec.Chunk.strictOk s cur bs = false
+      · simp [hso] at h
+      · simp only [hso] at h
+        cases hc : Spec.Chunk.chunk s bs with
+        | none => simp [hc] at h
+        | some p =>
+          obtain ⟨s', m, rest⟩ := p
+          simp only [hc] at h ⊢
+          by_cases hmo : Spec.Chunk.msgOk m = false
+          · simp [hmo] at h
+          · simp only [hmo] at h
+            exact ih s' _ rest _ ms h
+
+theorem C06_class_is_spec (bs : Bytes) (ms : List Msg) (h : Spec.Chunk.decodeSeq bs = some ms) :
+    Spec.Chunk.decode bs = some ms :=
+  decodeSeqFuel_decodeFuel _ _ _ _ _ _ h
+
+-- a foreign stream checked in the kernel (a test, and the non-vacuity witness of `C06_decodes_legal`):
+-- csid 65599 in 3-byte form, format 0 with extended timestamp, a format-3 continuation repeating the
+-- extended field, then a format-2 message
 def demo : Bytes :=
   [0x01, 0xFF, 0xFF, 0xFF, 0xFF, 0xFF, 0, 0, 130, 9, 5, 0, 0, 0, 1, 0, 0, 44] ++ List.replicate 128 1 ++
   [0xC1, 0xFF, 0xFF, 1, 0, 0, 44, 1, 1] ++
@@ -94,6 +147,8 @@ def demo : Bytes :=
 example : ((Des.feed {} demo).msgs.map fun m => (m.typ, m.msid, m.ts, m.data.length))
     = [(9, 5, 16777260, 130), (9, 5, 16777270, 130)] ∧
     (Spec.Chunk.decode demo).map (·.map fun m => (m.typ, m.msid, m.ts, m.data.length))
+    = some [(9, 5, 16777260, 130), (9, 5, 16777270, 130)] ∧
+    (Spec.Chunk.decodeSeq demo).map (·.map fun m => (m.typ, m.msid, m.ts, m.data.length))
     = some [(9, 5, 16777260, 130), (9, 5, 16777270, 130)] := by
   decide +kernel
 
